@@ -124,6 +124,10 @@ pub fn run(rep: &mut Report) {
             srcs.push(vec![0, 1, 2, 3]);
             srcs.push(vec![3, 0, 3, 1]);
         }
+        // a chunk three and more times, at regular and irregular distances (two unique chunks: the layout product stays small)
+        srcs.push(vec![0, 1, 0, 1, 0]);
+        srcs.push(vec![0, 0, 1, 0, 0]);
+        srcs.push(vec![0, 1, 0, 0, 1, 0, 1]);
         for s in srcs {
             jobs.push((si, s));
         }
